@@ -1,5 +1,7 @@
 (* Correspondence evaluator for C02.  Two kinds of cases:
    - CHist: a full history through the real actions (evaluated by Run/RunEng.v);
+   - CObj: a short history of real kube.Client calls on whole objects (keyed lists, custom kind,
+     --force), evaluated by Engine/Update2.v (Run/RunC02Obj.v);
    - CKube: ONE call of the real kube.Client (Create / Update / Delete) on a generated
      (original, target, live) triple, evaluated by the object-store handler of
      Engine/Cluster.v: result class, object store afterwards, effective mutations and the
@@ -7,6 +9,7 @@
 From Helm Require Export Run.RunEng.
 From Coq Require Import List String Bool Arith.
 From Helm Require Import Common.Assoc Engine.Types Engine.Eff Engine.Ops Engine.Cluster Engine.Seq Engine.MatchDefs.
+From Helm Require Import Engine.Obj2 Engine.Update2 Run.RunC02Obj.
 Import ListNotations.
 
 Inductive kverb := KVCreate | KVUpdate | KVDelete.
@@ -74,7 +77,10 @@ Definition kcase_ok (c : kcase) : bool :=
                   && strs_seteq de (kc_deleted c))).
 
 (* a history plus, per step, the "[Kind] name" lines of the uninstall response's Info *)
-Inductive case := CHist (c : RunEng.case) (kept : list (list string)) | CKube (c : kcase).
+Inductive case :=
+| CHist (c : RunEng.case) (kept : list (list string))
+| CKube (c : kcase)
+| CObj (c : ocase).       (* round 4: whole objects, Run/RunC02Obj.v *)
 
 (* [ws]: the world before each step.  A successful real uninstall must list exactly the
    manifest entries of the latest revision whose policy says keep. *)
@@ -104,6 +110,7 @@ Definition case_ok (c : case) : bool :=
   match c with
   | CHist h kept => hist_ok h kept
   | CKube k => kcase_ok k
+  | CObj o => ocase_ok o
   end.
 
 Fixpoint mismatches_from (i : nat) (cs : list case) : list nat :=
